@@ -18,7 +18,7 @@ import (
 
 // batch is the unit of work of one child process.  The list is a pure function of the tier.
 type batch struct {
-	Kind  string `json:"kind"` // payload | stream | cross
+	Kind  string `json:"kind"` // payload | stream | cross | alloc | link
 	Cmd   string `json:"cmd,omitempty"`
 	Round int    `json:"round"`
 	Part  int    `json:"part"`  // payload batches of expensive types are split: part k of Parts
@@ -63,6 +63,15 @@ func batches() []batch {
 	}
 	for r := 0; r < vf.N(1, 8); r++ {
 		bs = append(bs, batch{Kind: "cross", Round: r, Parts: 1, Magic: magicFor(r + 1)})
+	}
+	// appended (never inserted): the seeds of the batches above depend on their index
+	for r := 0; r < vf.N(1, 2); r++ {
+		for i, sp := range specs {
+			bs = append(bs, batch{Kind: "alloc", Cmd: sp.cmd, Round: r, Parts: 1, Magic: magicFor(i + r)})
+		}
+	}
+	for r := 0; r < vf.N(4, 16); r++ {
+		bs = append(bs, batch{Kind: "link", Round: r, Parts: 1, Magic: magicFor(r)})
 	}
 	return bs
 }
